@@ -402,7 +402,7 @@ def gen_case(mod, base_seed, tier, i):
         every = int(os.environ['VERIF_HASHSEED_EVERY'])       # (for trying the mechanism on a small sample)
     if every and i % every == every // 2 and case.get('kind') not in ('hashseed', 'sweep', 'driver') \
             and not case.get('systematic'):
-        case['hashseeds'] = [1 + (s % 7), 77 + (s % 5), 1000 + (s % 97)]
+        case['hashseeds'] = [1 + (s % 7), 77 + (s % 5), 1000 + (s % 97)][:int(getattr(mod, 'HASHSEED_N', 3))]
     if 'sched' not in case:
         case['sched'] = simworld.random_sched(rng, s)
     case['sched']['seed'] = s
